@@ -138,3 +138,84 @@ pub mod wal {
         ]
     }
 }
+
+/// Row-version (tuple) entry points (storage::tuple) with explicit snapshots.
+pub mod tuple {
+    use crate::multithreading::coordinator::Snapshot;
+    use crate::schema::{Column, Schema};
+    use crate::storage::tuple::{Row, Tuple, TupleBuilder, TupleReader, TupleRef};
+    use crate::types::{DataType, DataTypeKind};
+    use std::collections::{HashMap, HashSet};
+
+    pub struct Sch(pub(crate) Schema);
+    pub struct Tup(Tuple);
+
+    pub fn schema(keys: &[DataTypeKind], values: &[DataTypeKind]) -> Sch {
+        let mut cols = Vec::new();
+        for (i, k) in keys.iter().enumerate() {
+            cols.push(Column::new_with_defaults(*k, &format!("k{i}")));
+        }
+        for (i, k) in values.iter().enumerate() {
+            cols.push(Column::new_with_defaults(*k, &format!("v{i}")));
+        }
+        Sch(Schema::new_table_with_num_keys(cols, keys.len()))
+    }
+
+    pub fn snapshot(xid: u64, xmin: u64, xmax: Option<u64>, active: &[u64], aborted: &[u64]) -> Snapshot {
+        Snapshot::new(
+            xid,
+            xmin,
+            xmax,
+            active.iter().copied().collect::<HashSet<_>>(),
+            aborted.iter().copied().collect::<HashSet<_>>(),
+        )
+    }
+
+    /// `Snapshot::is_committed_before_snapshot`
+    pub fn committed_before(s: &Snapshot, txid: u64) -> bool {
+        s.is_committed_before_snapshot(txid)
+    }
+
+    impl Tup {
+        pub fn build(s: &Sch, row: Vec<DataType>, xmin: u64) -> Result<Self, String> {
+            TupleBuilder::from_schema(&s.0)
+                .build(&Row::new(row.into_boxed_slice()), xmin)
+                .map(Tup)
+                .map_err(|e| e.to_string())
+        }
+        pub fn add_version(&mut self, s: &Sch, mods: &[(usize, DataType)], xid: u64) -> Result<(), String> {
+            let m: HashMap<usize, DataType> = mods.iter().cloned().collect();
+            self.0.add_version_with(&m, xid, &s.0).map_err(|e| e.to_string())
+        }
+        pub fn delete(&mut self, xid: u64) -> Result<(), String> {
+            self.0.delete(xid).map_err(|e| e.to_string())
+        }
+        pub fn vacuum(&mut self, s: &Sch, oldest_active: u64) -> Result<usize, String> {
+            self.0.vaccum_with(oldest_active, &s.0).map_err(|e| e.to_string())
+        }
+        /// `(xmin, xmax, version)` of the tuple header.
+        pub fn header(&self) -> (u64, Option<u64>, u8) {
+            (self.0.xmin(), self.0.xmax(), self.0.version())
+        }
+        pub fn len(&self) -> usize {
+            self.0.len()
+        }
+        pub fn bytes(&self) -> Vec<u8> {
+            self.0.effective_data().to_vec()
+        }
+        pub fn decode_last(&self, s: &Sch) -> Result<Vec<DataType>, String> {
+            let layout = TupleReader::from_schema(&s.0)
+                .parse_last_version(self.0.effective_data())
+                .map_err(|e| e.to_string())?;
+            TupleRef::new(self.0.effective_data(), layout)
+                .to_row_with(&s.0)
+                .map(|r| r.into_inner().into_vec())
+                .map_err(|e| e.to_string())
+        }
+        pub fn decode_for(&self, s: &Sch, snap: &Snapshot) -> Result<Option<Vec<DataType>>, String> {
+            Row::from_bytes_checked_with_snapshot(self.0.effective_data(), &s.0, snap)
+                .map(|o| o.map(|r| r.into_inner().into_vec()))
+                .map_err(|e| e.to_string())
+        }
+    }
+}
